@@ -171,6 +171,18 @@ where
     ) -> Result<Running, SessionInnerError> {
         let SessionFrame { channel, body } = incoming;
         let channel = IncomingChannel(channel);
+        // Nothing may follow the local end on this channel. After an end that carried an
+        // error (DISCARDING) every frame but the peer's end is dropped; after a plain end
+        // the frames the peer sent before it saw the end are still taken in, but they are
+        // not answered.
+        let ended = match self.session.local_state() {
+            SessionState::Discarding => match body {
+                SessionFrameBody::End(_) => true,
+                _ => return Ok(Running::Continue),
+            },
+            SessionState::EndSent => true,
+            _ => false,
+        };
         match body {
             SessionFrameBody::Begin(begin) => {
                 self.session.on_incoming_begin(channel, begin)?;
@@ -179,7 +191,8 @@ where
                 self.session.on_incoming_attach(attach).await?;
             }
             SessionFrameBody::Flow(flow) => {
-                if let Some(outgoing_item) = self.session.on_incoming_flow(flow).await? {
+                let outgoing_item = self.session.on_incoming_flow(flow).await?;
+                if let Some(outgoing_item) = outgoing_item.filter(|_| !ended) {
                     send_outgoing_item(
                         &self.outgoing,
                         outgoing_item,
@@ -201,6 +214,7 @@ where
                     .session
                     .on_incoming_transfer(performative, payload)
                     .await?
+                    .filter(|_| !ended)
                 {
                     let frame = self.session.on_outgoing_disposition(disposition)?;
                     self.outgoing.send(frame).await.map_err(|_| {
@@ -214,7 +228,11 @@ where
                 // incoming-window has been consumed by received transfers, mirroring
                 // go-amqp's proactive top-up. This keeps the peer's send window sliding
                 // even when no link-level flow is generated.
-                if let Some(outgoing_item) = self.session.maybe_outgoing_session_flow() {
+                if let Some(outgoing_item) = self
+                    .session
+                    .maybe_outgoing_session_flow()
+                    .filter(|_| !ended)
+                {
                     send_outgoing_item(
                         &self.outgoing,
                         outgoing_item,
@@ -224,7 +242,8 @@ where
                 }
             }
             SessionFrameBody::Disposition(disposition) => {
-                if let Some(dispositions) = self.session.on_incoming_disposition(disposition)? {
+                let dispositions = self.session.on_incoming_disposition(disposition)?;
+                if let Some(dispositions) = dispositions.filter(|_| !ended) {
                     for disposition in dispositions {
                         let disposition = self.session.on_outgoing_disposition(disposition)?;
                         self.outgoing
@@ -536,7 +555,10 @@ where
                             self.session.connection_stop_reason(),
                         ))
                     })?;
-                let (channel, end) = self.wait_for_remote_end(false).await?;
+                // an end that carried an error leaves the session DISCARDING: whatever
+                // arrives before the peer's end is dropped
+                let discard = matches!(self.session.local_state(), SessionState::Discarding);
+                let (channel, end) = self.wait_for_remote_end(discard).await?;
                 self.session.on_incoming_end(channel, end)?;
             }
             SessionState::EndSent => {
